@@ -34,6 +34,11 @@ CHECKS = {
          "TLA+ step clauses + relational twin check, TLC model checking of Spec B"),
  "C10": ("model_checking", "C10_* clauses with cancel requested at every position (from running, pausing, paused, resuming); Spec B model-checked with them.", "6 C10",
          "TLA+ clauses on TLC-validated implementation traces + TLC model checking of Spec B"),
+ "C12": ("model_checking", "With-items monitor (items started / last status per execution) in Props; C12_* clauses on every call; Spec B "
+         "(with-items window, item-event contextualisation) model-checked with them and its behaviours replayed.", "6 C12",
+         "TLA+ monitor on TLC-validated implementation traces + TLC model checking of Spec B"),
+ "C13": ("model_checking", "Retry monitor (attempts per visit) in Props; C13_bound/cond/silent/delay; Spec B retry path model-checked and replayed.", "6 C13",
+         "TLA+ monitor on TLC-validated implementation traces + TLC model checking of Spec B"),
  "C18": ("model_checking", "Append-only action properties over consecutive recorded states.", "6 C18",
          "TLA+ action properties on TLC-validated implementation traces"),
 }
